@@ -42,6 +42,8 @@ def gen_case(rng, *, kinds=("pf", "pm"), errors=False, loads=True, join_timeouts
         c["mc"] = rng.choice([None, None, rng.randint(1, c["nw"])])
         c["add"] = 100
         c["bad"] = []
+        # map_fn returns None (a falsy, "absent-looking" result) on these values; observed as item 0
+        c["nones"] = sorted(set(rng.sample(xs, rng.randint(1, min(2, len(xs)))))) if (xs and rng.random() < 0.4) else []
     c["src_err"] = None
     if errors:
         r = rng.random()
@@ -74,6 +76,7 @@ def reference(c):
     """Model-free expectation of the consumer-visible outcomes of the script (in_order / Prefetcher semantics):
     a list aligned with c['script'] of outcomes, where a 'state' entry is the ABSOLUTE source position it must denote."""
     xs, err, bad = c["xs"], c.get("src_err"), set(c.get("bad", []))
+    nones = set(c.get("nones", [])) if c["kind"] == "pm" else set()
     add = c.get("add", 100) if c["kind"] == "pm" else 0
     out, saved = [], []
     pos, ended = 0, False
@@ -90,7 +93,7 @@ def reference(c):
             else:
                 x = xs[pos]
                 pos += 1
-                out.append(["err", "udf"] if (c["kind"] == "pm" and x in bad) else ["item", x + add])
+                out.append(["err", "udf"] if (c["kind"] == "pm" and x in bad) else ["item", 0 if x in nones else x + add])
         elif op == "state":
             out.append(["state", pos])
             saved.append(pos)
@@ -192,13 +195,21 @@ def run(c):
     return r, obs
 
 
+def udf_term(c):
+    add = c.get("add", 100) if c["kind"] == "pm" else 0
+    bad = lib.clist([str(x) for x in c.get("bad", [])])
+    if c["kind"] == "pm" and c.get("nones"):
+        return "udfn %d %s %s" % (add, bad, lib.clist([str(x) for x in c["nones"]]))
+    return "udf %d %s" % (add, bad)
+
+
 def model_term(c, r):
     tr = r["trace"]
-    cfg = ("{| k_pm := %s; k_nw := %d; k_inorder := %s; k_mc := %s; k_sf := %d; k_xs := %s; k_err := %s; k_f := udf %d %s |}" % (
+    cfg = ("{| k_pm := %s; k_nw := %d; k_inorder := %s; k_mc := %s; k_sf := %d; k_xs := %s; k_err := %s; k_f := %s |}" % (
         lib.cbool(c["kind"] == "pm"), c.get("nw", 0), lib.cbool(c.get("in_order", True)),
         lib.copt(str(c["pf"]) if c["kind"] == "pf" else (None if c.get("mc") is None else str(c["mc"]))),
         c["sf"], lib.clist([str(x) for x in c["xs"]]), lib.copt(None if c.get("src_err") is None else str(c["src_err"])),
-        c.get("add", 100) if c["kind"] == "pm" else 0, lib.clist([str(x) for x in c.get("bad", [])])))
+        udf_term(c)))
     ops = []
     for op in c["script"]:
         if op == "next":
@@ -247,6 +258,7 @@ def distribution(cases):
         d["bias"][c["bias"]] = d["bias"].get(c["bias"], 0) + 1
         d["src_err"] += c.get("src_err") is not None
         d["udf_err"] += bool(c.get("bad"))
+        d["udf_none"] = d.get("udf_none", 0) + bool(c.get("nones"))
         d["loads"] += sum(1 for o in c["script"] if isinstance(o, list) and o[1] is not None)
         d["resets"] += sum(1 for o in c["script"] if isinstance(o, list)) - 1
         d["unordered"] += c["kind"] == "pm" and not c["in_order"]
